@@ -323,7 +323,8 @@ def check_c(ck, repo):
             # the mask variable is updated in place: its construction is read from the path's stores
             okm = mk is not None and _t(mk) == f"numpy.isnan(numpy.squeeze({pp_})).copy()"
             upd = [(k, v) for k, v in ratio[0].named_stores.items() if k.endswith("[1:]")]
-            okm = okm and len(upd) == 1 and isinstance(upd[0][1], ast.BinOp) and isinstance(upd[0][1].op, ast.BitOr) and _t(upd[0][1].right) == f"numpy.isnan(numpy.squeeze({pp_})[:-1])"
+            # isnan is element-wise: isnan(A[:-1]) and isnan(A)[:-1] are the same mask
+            okm = okm and len(upd) == 1 and isinstance(upd[0][1], ast.BinOp) and isinstance(upd[0][1].op, ast.BitOr) and _t(upd[0][1].right) in (f"numpy.isnan(numpy.squeeze({pp_})[:-1])", f"numpy.isnan(numpy.squeeze({pp_}))[:-1]")
             okm = okm and E in _t(N_) and E in _t(D_)
         ck.verdict(okm, "C20.c", fi, f"{cfg} NaN masks (plain and shifted)", "a term is dropped from numerator and denominator alike when the forecast or its predecessor is missing", "the NaN masks of numerator and denominator no longer drop the same terms: the naive forecast scores != 1 when forecasts start with NaN padding")
         # substitution: forecast = previous value turns the numerator into the denominator
